@@ -112,6 +112,8 @@ def forbidden_tokens():
     for path in glob.glob(os.path.join(LEAN, "Lasso*", "**", "*.lean"), recursive=True) + [os.path.join(LEAN, "Main.lean")]:
         src = strip_lean_comments(open(path).read())
         for n, line in enumerate(src.splitlines(), 1):
+            # the content of string literals is data (e.g. Rust source text quoted by the extractor), not Lean
+            line = re.sub(r'"(?:\\.|[^"\\])*"', '""', line)
             for pat in FORBIDDEN:
                 if re.search(pat, line):
                     hits.append(f"{os.path.relpath(path, LEAN)}:{n}: {line.strip()[:100]}")
